@@ -16,8 +16,11 @@ META = dict(
          "with POST and (k, 204|304, k) triples), plus keep-alive sequences that switch between HEAD and GET / POST (HEAD; "
          "HEAD,HEAD; HEAD,GET; GET,HEAD; HEAD,POST; POST,HEAD with every kind for the non-HEAD request; thorough also "
          "HEAD,GET,HEAD and GET,HEAD,GET) - the app answers HEAD with the headers of the fixed response and no body. Schedule: the driver alternates Patron.serviceAll / "
-         "Valet.serviceAll; servicing the same side again costs one deviation; every recv on either side may return 1 byte, half, "
-         "or all but one byte of what is waiting instead of everything (one deviation each); every request may reach the server "
+         "Valet.serviceAll; servicing the same side again costs one deviation; a recv on either side may return 1 byte of "
+         "what is waiting instead of everything (one deviation; the rest is read in the same pass, so this only varies the "
+         "read pattern); every chunk of a chunked response may reach the client in two pieces with a client pass in between - "
+         "the server socket accepts it only up to a cut right after the size line or in the middle of the data (one deviation "
+         "per fragmented chunk); every request may reach the server "
          "in two pieces with a server pass in between - the client socket accepts it only up to a cut inside the request line, "
          "after the request line, after the first header, before the blank line, between head and body or inside the body (one "
          "deviation per fragmented request); all schedules with <= 2 deviations "
@@ -29,8 +32,8 @@ META = dict(
          "the server sent parse as exactly N self-delimiting responses (Content-Length or chunked) with the right bodies; the "
          "connection is still open on both sides and no second socket was opened; under fair alternation the exchange completes "
          "within a fixed number of service calls (a client waiting for a close to finish a response is a violation).",
-    note="Socket doubles replace loopback sockets so that the harness owns the schedule. Short reads are limited to three cut "
-         "points per recv (every cut point of a message is C29's subject). Server-side partial sends, connection loss and timeouts are "
+    note="Socket doubles replace loopback sockets so that the harness owns the schedule. Short reads are limited to one cut "
+         "point per recv (they are re-assembled within the pass; every cut point of a message is C29's subject). Server-side partial sends, connection loss and timeouts are "
          "not explored here (C24-C28); the only partial sends are the client's two-piece requests. N <= 3, deviation bound as stated; the liveness window is 14 service calls per request.",
 )
 from mc import core, net, httpharness as hh
@@ -154,21 +157,35 @@ def request_cuts(msg):
     return out
 
 
+def chunk_cuts(n):
+    """A send of n bytes that is one packed chunk '<hex size>\\r\\n<data>\\r\\n' (data < 256 bytes): cut right after the
+    size line and in the middle of the data (the terminating '0\\r\\n\\r\\n': after the size line)."""
+    d = n - 5 if n - 5 < 16 else n - 6
+    sl = n - d - 2
+    return [sl] + ([sl + max(1, d // 2)] if d >= 2 else [])
+
+
 class SchedPolicy(hh.CutPolicy):
-    """CutPolicy (three short-read lengths per recv) plus: a send of the client that carries a whole request
-    may be accepted only up to one of `request_cuts` (one deviation), so that the request reaches the server
-    in two pieces with a server pass in between."""
+    """CutPolicy (one short-read length per recv) plus two kinds of fragmentation across service passes (one
+    deviation each): a send of the client that carries a whole request may be accepted only up to one of
+    `request_cuts`, so the request reaches the server in two pieces with a server pass in between; a send of the
+    server that carries one chunk of a chunked response may be accepted only up to one of `chunk_cuts`, so the
+    chunk reaches the client in two pieces with a client pass in between."""
 
     def __init__(self, chooser):
-        hh.CutPolicy.__init__(self, chooser)
+        hh.CutPolicy.__init__(self, chooser, cuts=("one",))
         self.current_request = lambda: b""
+        self.chunk_lengths = set()
 
     def decide(self, sock, op, cands):
         if op == "send" and len(cands) > 1 and cands[0][0] == "n":
             n = cands[0][1]
             msg = self.current_request()
             keep = [0]
-            if len(msg) == n:
+            if "<" in sock.name:
+                if n in self.chunk_lengths:
+                    keep += [cands.index(("n", k)) for k in chunk_cuts(n) if ("n", k) in cands]
+            elif len(msg) == n:
                 keep += [cands.index(("n", k)) for k in request_cuts(msg) if ("n", k) in cands]
             if len(keep) == 1:
                 return 0
@@ -181,12 +198,18 @@ def execute(ch, mode, kinds, method, part, states):
     from ioflo.aio.http import serving, clienting
     FSM = hh.setup()
     policy = SchedPolicy(ch)
-    fn = net.FakeNet(policy=policy, menu=net.Menu(recv_split=True))
+    fn = net.FakeNet(policy=policy, menu=net.Menu(recv_split=True, send_partial=True))
     FSM.net = fn
     ck = net.clock()
     calls = []
     reqs = plan(kinds, method)
     N = len(reqs)
+    policy.chunk_lengths = {5}          # terminating chunk of every response without Content-Length
+    for rq in reqs:
+        if rq["kind"] == "stream" and rq["method"] != "HEAD":
+            m = rq["method"].encode()
+            for piece in (b"S:", b"t%d" % rq["i"], b":" + m + b":" + rq["body"]):
+                policy.chunk_lengths.add(len(piece) + 5 + (1 if len(piece) >= 16 else 0))
     sched = []
     valet = serving.Valet(app=make_app(calls), ha=("", PORT), store=ck)
     if not valet.open():
@@ -453,8 +476,8 @@ def run():
     ck.coverage_extra = dict(deviation_bound=bounds, kind_sequences=len(set(c[3] for c in cfgs)), modes=["patron", "burst"],
                              methods=["GET", "POST", "HEAD mixed with GET / POST"], configurations=len(cfgs), liveness_window_calls_per_request=STEPS_PER_REQ)
     ck.assumptions = [
-        "socket doubles (mc/net.py) instead of loopback sockets; sends are accepted whole, a recv returns everything waiting or "
-        "one of three shorter prefixes (1 byte, half, all but one)",
+        "socket doubles (mc/net.py) instead of loopback sockets; a recv returns everything waiting or 1 byte; sends are accepted "
+        "whole except the scheduled two-piece requests (client) and two-piece chunks (server)",
         "'empty' is a 200 response whose WSGI iterable is empty and which declares no length; 'stream' is a generator without a "
         "length that also yields one empty piece (allowed by the Responder: empty pieces are not written)",
         "'matched to the request that caused it' is read as: the queued response's request entry carries the rid / path of the "
